@@ -186,6 +186,7 @@ func c20Check(c *core.Ctx, kind, alphaName string, words, prefixes []string, his
 		set[words[h]] = true
 	}
 	var key string
+	c.Current(c20Case(kind, alphaName, words, hist))
 	v := c.Run(func() *core.Viol {
 		t := c20Build(words, hist)
 		key = c20Key(t, set, prefixes)
